@@ -51,7 +51,7 @@ def run(case, mode="single", detect=True, dcache=None, icache=None, max_steps=40
     """Run `case` (prog, regs, mem). single: at most max_steps instructions. five: at most max_steps cycles, and
     stop once `stop_after` instructions have retired (used for prefix comparison of non-terminating programs)."""
     from architecture_simulator.simulation.runtime_errors import InstructionExecutionException
-    sim = rvdrive.new_sim(mode, detect, dcache, icache)
+    sim = rvdrive.new_sim(mode, detect, dcache, icache, state_first=bool(case.get("state_first")))
     rvdrive.load(sim, case["prog"], case.get("regs"), case.get("mem"))
     if sim_hook:
         sim_hook(sim)
